@@ -19,6 +19,7 @@ func runC14(c *Ctx, r *Report) {
 	// ---- R1 ----
 	{
 		sub := NewReport("C02", r.Tier, c)
+		sub.Sub = true
 		runC02(c, sub)
 		for _, o := range sub.Obls {
 			if o.Rule != "C02.R4" {
